@@ -259,6 +259,19 @@ func classifyBottom(scc []key) *convFinding {
 			// every sync still sees "desired-replicas annotation != Deployment replicas" on an active ReplicaSet
 			// and takes the scaling path, which changes nothing: the scale event is never consumed
 			class = "stuck/scale-event-never-consumed"
+			// which input class: the (known) early return of scale() needs a SINGLE active ReplicaSet that already has
+			// the new size; a stale annotation among several active ReplicaSets is something else
+			active := 0
+			for i := range s.RS {
+				if s.RS[i].Present && s.RS[i].S > 0 {
+					active++
+				}
+			}
+			if active == 1 {
+				class += "/single-active-replicaset"
+			} else {
+				class += "/several-active-replicasets"
+			}
 		case !s.RS[idxNew].Present:
 			class = "stuck/new-absent"
 		case s.RS[idxNew].S < s.R:
